@@ -9,8 +9,15 @@
     formatted entry; the header entries rotateFile writes into every new file are
     a size [h] (their text is decoded back by the harness like any other entry
     but they are not user messages); the clock is a label of every operation,
-    so every theorem holds for all clocks; sizes are sizes after a flush (the
-    harness flushes before it looks, and before it runs GC).  [create] opens
+    so every theorem holds for all clocks.  [dir] holds the *logical* content of
+    the files (what has been written through syncBuffer); the bytes and
+    messages of the newest file that still sit in its bufio.Writer are counted
+    by [ubytes]/[ucount], and [on_disk] is what a reader of the directory sees.
+    Flush() (in either mode) leaves nothing buffered; in sync mode
+    (SetSync(true), which itself flushes) writeToFile flushes after every write;
+    rotateFile flushes the old file and writes the header of the new one
+    directly.  The harness looks at the directory only right after a flush, and
+    runs GC right after one, so GC works on the sizes a flush leaves.  [create] opens
     with O_APPEND|O_CREATE: the model assumes the generated name is new, which
     the monotonic time stamps guarantee for one logger. *)
 From Shk Require Import Base.Prelude.
@@ -23,32 +30,50 @@ Record lstate := mkState {
   is_open : bool;          (* l.file != nil *)
   nbytes : Z;              (* syncBuffer.nbytes *)
   last_rot : Z;            (* syncBuffer.lastRotation *)
-  maxsz : Z                (* LogFileMaxSize *)
+  maxsz : Z;               (* LogFileMaxSize *)
+  syncw : bool;            (* l.syncWrites *)
+  ubytes : Z;              (* bytes of the newest file still in its bufio.Writer *)
+  ucount : nat             (* ... and how many of its messages they are *)
 }.
 
-Definition init_state (planted : list lfile) (m : Z) : lstate := mkState planted false 0 0 m.
+Definition init_state (planted : list lfile) (m : Z) : lstate := mkState planted false 0 0 m false 0 0.
+
+(** Flush() / flushAndSync: nothing stays buffered. *)
+Definition do_flush (s : lstate) : lstate :=
+  mkState (dir s) (is_open s) (nbytes s) (last_rot s) (maxsz s) (syncw s) 0 0.
+
+(** What is in the files of the directory (newest first). *)
+Definition on_disk (s : lstate) : list lfile :=
+  match dir s with
+  | f :: tl =>
+      mkFile (f_stamp f) (f_size f - ubytes s)
+             (firstn (length (f_msgs f) - ucount s) (f_msgs f)) :: tl
+  | [] => []
+  end.
 
 (** rotateFile + create: the new name's time stamp is the clock, or one more
     than the previous one if the clock has not advanced past it. *)
 Definition do_rotate (now h : Z) (s : lstate) : lstate :=
   let st := if now <=? last_rot s then last_rot s + 1 else now in
-  mkState (mkFile st h [] :: dir s) true h st (maxsz s).
+  mkState (mkFile st h [] :: dir s) true h st (maxsz s) (syncw s) 0 0.
 
 Definition append_msg (id len : Z) (s : lstate) : lstate :=
   match dir s with
   | f :: tl =>
       mkState (mkFile (f_stamp f) (f_size f + len) (f_msgs f ++ [id]) :: tl)
-              (is_open s) (nbytes s + len) (last_rot s) (maxsz s)
+              (is_open s) (nbytes s + len) (last_rot s) (maxsz s) (syncw s)
+              (ubytes s + len) (S (ucount s))
   | [] => s   (* no file: cannot happen after a rotation *)
   end.
 
 (** outputLogEntry: ensureFile (first rotation, clock [now1]), then
     syncBuffer.Write: rotate (clock [now2]) if nbytes + len >= LogFileMaxSize,
-    then write. *)
+    then write; writeToFile then flushes if syncWrites is set. *)
 Definition do_log (now1 now2 h id len : Z) (s : lstate) : lstate :=
   let s1 := if is_open s then s else do_rotate now1 h s in
   let s2 := if maxsz s1 <=? nbytes s1 + len then do_rotate now2 h s1 else s1 in
-  append_msg id len s2.
+  let s3 := append_msg id len s2 in
+  if syncw s3 then do_flush s3 else s3.
 
 (** selectFiles: newest first (insertion sort on the time stamp; ties keep
     their relative order, the harness never generates ties). *)
@@ -82,26 +107,34 @@ Definition gc_select (bound : Z) (sorted : list lfile) : list lfile :=
 Definition gc (bound : Z) (files : list lfile) : list lfile := gc_select bound (sort_desc files).
 
 Definition do_gc (bound : Z) (s : lstate) : lstate :=
-  mkState (gc bound (dir s)) (is_open s) (nbytes s) (last_rot s) (maxsz s).
+  mkState (gc bound (dir s)) (is_open s) (nbytes s) (last_rot s) (maxsz s) (syncw s) (ubytes s) (ucount s).
 
 Inductive rop :=
 | RLog (now1 now2 id len : Z)
 | RSetMax (m : Z)
 | RGc (bound : Z)
-| RSnap.
+| RSetSync (b : bool)      (* SetSync(b); SetSync(true) also calls Flush() *)
+| RSnap                    (* Flush(), then look at the directory *)
+| RPeek.                   (* look at the directory without flushing *)
 
 Definition rstep (h : Z) (s : lstate) (o : rop) : lstate :=
   match o with
   | RLog n1 n2 id len => do_log n1 n2 h id len s
-  | RSetMax m => mkState (dir s) (is_open s) (nbytes s) (last_rot s) m
+  | RSetMax m => mkState (dir s) (is_open s) (nbytes s) (last_rot s) m (syncw s) (ubytes s) (ucount s)
   | RGc b => do_gc b s
-  | RSnap => s
+  | RSetSync b =>
+      let s' := mkState (dir s) (is_open s) (nbytes s) (last_rot s) (maxsz s) b (ubytes s) (ucount s) in
+      if b then do_flush s' else s'
+  | RSnap => do_flush s
+  | RPeek => s
   end.
 
 Definition rrun (h : Z) (s : lstate) (ops : list rop) : lstate := fold_left (rstep h) ops s.
 
 (** What is read back: the messages of the files, oldest file first. *)
-Definition readback (s : lstate) : list Z := concat (map f_msgs (rev (dir s))).
+Definition readback_of (d : list lfile) : list Z := concat (map f_msgs (rev d)).
+Definition readback (s : lstate) : list Z := readback_of (dir s).           (* everything written *)
+Definition readback_disk (s : lstate) : list Z := readback_of (on_disk s).  (* what a reader finds *)
 
 Fixpoint logged (ops : list rop) : list Z :=
   match ops with
@@ -117,10 +150,10 @@ Fixpoint no_gc (ops : list rop) : bool :=
   | _ :: tl => no_gc tl
   end.
 
-(** Snapshots, for the correspondence: after every RGc and RSnap, the
+(** Snapshots, for the correspondence: after every RGc, RSnap and RPeek, the
     directory oldest first as (size, messages). *)
 Definition snapshot (s : lstate) : list (Z * list Z) :=
-  map (fun f => (f_size f, f_msgs f)) (rev (dir s)).
+  map (fun f => (f_size f, f_msgs f)) (rev (on_disk s)).
 
 Fixpoint rrun_snaps (h : Z) (s : lstate) (ops : list rop) : list (list (Z * list Z)) :=
   match ops with
@@ -128,7 +161,7 @@ Fixpoint rrun_snaps (h : Z) (s : lstate) (ops : list rop) : list (list (Z * list
   | o :: tl =>
       let s' := rstep h s o in
       match o with
-      | RGc _ | RSnap => snapshot s' :: rrun_snaps h s' tl
+      | RGc _ | RSnap | RPeek => snapshot s' :: rrun_snaps h s' tl
       | _ => rrun_snaps h s' tl
       end
   end.
